@@ -38,7 +38,7 @@ RULE = ("each run draws a body length (dense around 0, 1, 2^14+-2, 2^15, 2^16+-2
         "sizes and ciphertext cuts, and serves it over BOTH TLS backends. distinct = distinct "
         "(length, reader, buffer, cut-signature); non-trivial = body >= 1 byte and the reader or "
         "the network was not the default")
-PROBES = ["backpressure_pause_writing", "body_ge_16k", "body_ge_64k", "slow_reader", "bursty_reader",
+PROBES = ["backpressure_pause_writing", "body_ge_16k", "body_ge_64k", "body_ge_6MiB", "slow_reader", "bursty_reader",
           "ciphertext_cut", "static_file", "start_server", "very_slow_reader_over_30s"]
 COMPONENTS = {
     "real": ["nauyaca.server.protocol._send_response", "nauyaca.server.tls_protocol (TLS pump)",
@@ -169,6 +169,11 @@ def run_one(ch):
     res = RunResult()
     big = 8 * 1024 * 1024 if os.environ.get("VERIF_TIER_EFFECTIVE") == "thorough" else 1024 * 1024
     n = ch.biased_size("len", 0, big, SPECIALS)
+    if ch.chance("huge", 0.008):
+        # a few multi-megabyte bodies in every tier: shortfalls that only accumulate
+        # over hundreds of TLS records (per-record overhead, flush limits)
+        n = ch.pick("hugelen", [6 << 20, (6 << 20) + 12345, 8 << 20, 12 << 20, 16 << 20])
+        res.stats["body_ge_6MiB"] += 1
     source = ch.pick("source", ["handler", "static", "start_server"], [6, 2, 2])
     body = make_body(ch, n)
     if source != "handler":
@@ -183,6 +188,13 @@ def run_one(ch):
            "s2c_mode": ch.choose("s2cmode", 2, [3, 2]),
            "async_handler": bool(ch.choose("async", 2)),
            "deadline": 60.0}
+    # the link itself (cap bytes per ~3 ms round) must not be what makes the transfer
+    # take longer than asyncio's 30 s TLS shutdown timer (that is the slow-reader
+    # population's job, see the known finding)
+    cap = cfg["cap_s2c"] = max(cap, int(n * 0.003 / 10) + 1)
+    if n >= (4 << 20):
+        cap = cfg["cap_s2c"] = max(cap, 262144)
+        cfg["s2c_mode"] = 0
     total = n + 64
     if reader == "slow":
         # finish within ~20 s unless the rare very-slow population is drawn
